@@ -419,6 +419,13 @@ theorem queue_shape_of_source :
        "if self._enqueue: self._queue.put(str_record) else: self._sink.write(str_record)"] := by
   decide
 
+/-- tie G (regenerated from `Handler.__init__`) for the SHARED part of `Queue.St` (`queue`, `event`, `confLock` are one
+object for all processes): the three channel objects are multiprocessing primitives that come from one provider (the
+`multiprocessing` module or the user's context – never a thread-only queue/event/lock), the owner is the creating
+process, and the worker is a daemon thread running `_queued_writer`, started after everything it uses exists -/
+theorem init_channel_of_source :
+    Queue.ShapeGen.initChannelShared = true ∧ Queue.ShapeGen.initOwnerAndWorker = true := by decide
+
 /-- the attributes of a handler that make up the cross-process channel: in a child that received the logger by
 pickling they must be the parent's (queue, confirmation event and lock: shared objects; owner pid, `_stopped`,
 `_enqueue`: copied values) -/
